@@ -38,8 +38,20 @@ partial def treeTrace : Spec.Tree → List String
   | .prim id c => [s!"v{identHex id}={toHex c}"]
   | .cons id _ kids => [s!"v{identHex id}("] ++ kids.flatMap treeTrace ++ [")"]
 
+/-- the named tags: universal class assignments of X.680 (8.4, table 1) and the context-specific
+    tags 0-6; written from the standard -/
+def namedTags : List (String × Nat × Nat) :=
+  [("END_OF_VALUE", 0, 0), ("BOOLEAN", 0, 1), ("INTEGER", 0, 2), ("BIT_STRING", 0, 3), ("OCTET_STRING", 0, 4), ("NULL", 0, 5), ("OID", 0, 6), ("OBJECT_DESCRIPTOR", 0, 7), ("EXTERNAL", 0, 8), ("REAL", 0, 9), ("ENUMERATED", 0, 10), ("EMBEDDED_PDV", 0, 11), ("UTF8_STRING", 0, 12), ("RELATIVE_OID", 0, 13), ("TIME", 0, 14), ("SEQUENCE", 0, 16), ("SET", 0, 17), ("NUMERIC_STRING", 0, 18), ("PRINTABLE_STRING", 0, 19), ("TELETEX_STRING", 0, 20), ("VIDEOTEX_STRING", 0, 21), ("IA5_STRING", 0, 22), ("UTC_TIME", 0, 23), ("GENERALIZED_TIME", 0, 24), ("GRAPHIC_STRING", 0, 25), ("VISIBLE_STRING", 0, 26), ("GENERAL_STRING", 0, 27), ("UNIVERSAL_STRING", 0, 28), ("CHARACTER_STRING", 0, 29), ("BMP_STRING", 0, 30), ("DATE", 0, 31), ("TIME_OF_DAY", 0, 32), ("DATE_TIME", 0, 33), ("DURATION", 0, 34), ("OID_IRI", 0, 35), ("RELATIVE_OID_IRI", 0, 36), ("CTX_0", 2, 0), ("CTX_1", 2, 1), ("CTX_2", 2, 2), ("CTX_3", 2, 3), ("CTX_4", 2, 4), ("CTX_5", 2, 5), ("CTX_6", 2, 6)]
+
 def handleModel (toks : List String) : String :=
   match toks with
+  | ["tag.const", name] =>
+    match namedTags.find? (fun x => x.1 == name) with
+    | some (_, c, n) =>
+      resStr do
+        let t ← Tag.new (clsMask c) n
+        pure s!"ok w0={toHex (t.write false)} w1={toHex (t.write true)} len={t.encodedLen} num={t.number} cls={t.classBits.toNat / 64}"
+    | none => "bad-op"
   | ["tag.new", cls, num] =>
     match cls.toNat?, num.toNat? with
     | some c, some n =>
@@ -192,6 +204,23 @@ def convSpec (c : Bytes) : String :=
   " ".intercalate (allTys.map fun (n, ty) =>
     if Spec.inRange ty.signed ty.width v then s!"{n}={v}" else s!"{n}=ovf")
 
+/-- the value read through `OctetStringSource`: request 1, 2, 3, 5, 1, … octets at a time -/
+def osDrain (os : OS) : Res Bytes :=
+  let rec go : Nat → Nat → OSS → Bytes → Res Bytes
+    | 0, _, _, acc => .ok acc
+    | fuel + 1, i, s, acc =>
+      let k := [1, 2, 3, 5][i % 4]!
+      match s.request k with
+      | .error e => .error e
+      | .ok (n, s1) =>
+        if n == 0 then .ok acc
+        else
+          let t := min n k
+          match s1.advance t with
+          | .error e => .error e
+          | .ok s2 => go fuel (i + 1) s2 (acc ++ s1.current.take t)
+  go (match os with | .prim b => b.length + 2 | .cons c => c.length + 2) 0 (OSS.new os) []
+
 def osViews (os : OS) : Res String := do
   let segs ← os.segments
   let bytes ← os.octets
@@ -199,7 +228,8 @@ def osViews (os : OS) : Res String := do
   let empty ← os.isEmpty
   let segStr := if segs.isEmpty then "none" else ",".intercalate (segs.map toHex)
   let slice := match os.asSlice with | some s => toHex s | none => "none"
-  pure s!"segs={segStr} bytes={toHex bytes} into={toHex bytes} len={len} empty={b01 empty} octets={toHex bytes} slice={slice}"
+  let src ← osDrain os
+  pure s!"segs={segStr} bytes={toHex bytes} into={toHex bytes} len={len} empty={b01 empty} octets={toHex bytes} slice={slice} src={toHex src}"
 
 def charsStr (l : List Nat) : String := if l.isEmpty then "-" else ",".intercalate (l.map toString)
 
@@ -317,7 +347,7 @@ def handleLeaf (toks : List String) : String :=
     | none => "bad-op"
   | ["oid.eq", a, b] =>
     match ofHex a, ofHex b with
-    | some a, some b => s!"eq={b01 (a == b)} hasheq={b01 (a == b)}"
+    | some a, some b => s!"eq={b01 (Oid.eq a b)} hasheq={b01 (Oid.hashInput a == Oid.hashInput b)}"
     | _, _ => "bad-op"
   | ["bits.bit", unused, bits, lo, hi] =>
     match unused.toNat?, ofHex bits, lo.toNat?, hi.toNat? with
@@ -397,7 +427,7 @@ def handleSpecLeaf (toks : List String) : String :=
     | none => "bad-op"
   | ["oid.eq", a, b] =>
     match ofHex a, ofHex b with
-    | some a, some b => s!"eq={b01 (a == b)} hasheq={b01 (a == b)}"
+    | some a, some b => s!"eq={b01 (Oid.eq a b)} hasheq={b01 (Oid.hashInput a == Oid.hashInput b)}"
     | _, _ => "bad-op"
   | ["cs.fromstr", cs, text] =>
     match parseCharSet cs, ofHex text with
@@ -476,7 +506,7 @@ def handleSpecTlv (toks : List String) : String :=
           | t => Spec.osSegments (e.length + 2) t
         let segStr := if segs.isEmpty then "none" else ",".intercalate (segs.map toHex)
         let slice := match t with | .prim _ c => toHex c | _ => "none"
-        s!"ok segs={segStr} bytes={toHex c} into={toHex c} len={c.length} empty={b01 c.isEmpty} octets={toHex c} slice={slice}"
+        s!"ok segs={segStr} bytes={toHex c} into={toHex c} len={c.length} empty={b01 c.isEmpty} octets={toHex c} slice={slice} src={toHex c}"
     | _, _ => "bad-op"
   | ["os.cmp", mode, ea, eb] =>
     match Mode.ofString mode, ofHex ea, ofHex eb with
@@ -518,6 +548,12 @@ def handleSpecTlv (toks : List String) : String :=
 
 def handleSpec (toks : List String) : String :=
   match toks with
+  | ["tag.const", name] =>
+    match namedTags.find? (fun x => x.1 == name) with
+    | some (_, c, n) =>
+      let w0 := Spec.identOctets c false n
+      s!"ok w0={toHex w0} w1={toHex (Spec.identOctets c true n)} len={w0.length} num={n} cls={c}"
+    | none => "bad-op"
   | ["tag.new", cls, num] =>
     match cls.toNat?, num.toNat? with
     | some c, some n =>
